@@ -18,7 +18,7 @@ def check(run, replay=None):
     mc = run.tlc("Regen", "MCRegen", workers=8, timeout=900)
     if not mc["ok"]:
         raise Infra("Regen design check failed: " + mc["out"][-2000:])
-    n, depth = (48, 5) if run.tier == "quick" else (400, 7)
+    n, depth = (32, 5) if run.tier == "quick" else (400, 7)
     g = run.tlc("Regen", "GenRegen", workers=1, timeout=600, simulate="num=%d" % n, depth=depth + 1,
                 extra=["-seed", str(run.seed)], cfg_subst={"MaxHist = 5": "MaxHist = %d" % depth})
     # in simulation mode TLC evaluates the invariant on every successor it considers, so siblings of
@@ -29,6 +29,14 @@ def check(run, replay=None):
     cases = [json.loads(x) for x in allc[:n]]
     if len(cases) < n // 2:
         raise Infra("too few behaviours generated: %d" % len(cases))
+    # focused behaviours, exhaustive: run ; one perturbation ; run again
+    f = run.tlc("Regen", "FocusRegen", workers=1, timeout=900,
+                cfg_subst={"FocusAll = FALSE": "FocusAll = %s" % ("FALSE" if run.tier == "quick" else "TRUE")})
+    if not f["ok"]:
+        raise Infra("FocusRegen failed: " + f["out"][-2000:])
+    focus = [e for t, e in f["emitted"] if t == "CASE"]
+    nrandom = len(cases)
+    cases = focus + cases
     cpath = run.path("cases.ndjson"); write_ndjson(cpath, cases)
     tpath = run.path("trace.ndjson")
     os.makedirs(run.path("w"), exist_ok=True)
@@ -53,5 +61,6 @@ def check(run, replay=None):
                trace_events=len(trace), generate_runs=len(gens), failed_runs=len(failed),
                evaluations=len(cases), distinct_nontrivial=distinct,
                rule="behaviours of Regen.tla sampled by TLC -simulate (seeded), each starting with a generation; distinct = distinct histories",
-               samples=[c["hist"] for c in cases[:2]], history_depth=depth, rejected_events=len(rejects))
+               samples=[cases[0]["hist"], cases[-1]["hist"]], history_depth=depth, rejected_events=len(rejects),
+               focused_histories=len(focus), sampled_histories=nrandom, focused_exhaustive=True)
     return finish(run, "model_checking", cov, ASSUME)
